@@ -25,7 +25,10 @@ RULE = (
     "sampler, /flow, and /checkpoint/state equal byte-for-byte (length included) to the most recent payload written, which is the "
     "payload of the last due iteration completed before the fault (or the earlier run's final payload if none was due yet); it "
     "unpickles and Aspire.resume_from_file loads it. (dump_state) generated sequences of payload sizes 0..200 kB, growing / shrinking "
-    "/ equal, into one dataset: after every write the dataset equals the last payload. "
+    "/ equal, into one dataset: after every write the dataset equals the last payload. (continued) for two (thorough: four) crash "
+    "points per configuration the file left behind is continued through Aspire.resume_from_file with the same arguments: its writes "
+    "happen at the absolute iterations due under the cadence plus the final one, and after a second fault at each of its likelihood "
+    "calls the file holds the continued run's latest payload or, before its first write, still the payload it was resumed from. "
     "Non-trivial = a crash after >=2 writes, or an overwrite with a different size; counted per (configuration, k)."
 )
 ASSUMPTIONS = [
@@ -76,6 +79,66 @@ def _dump_state_part(case, ctx):
     finally:
         cc.rmtree(d)
     return {"nontrivial": nt, "labels": ["dump_state", f"writes:{len(case['sizes'])}"]}
+
+
+def _continued(case, ctx, d, fk, k, payload, it0, n_it, c, labels, keys):
+    """The file an interrupted run left is continued through Aspire.resume_from_file with the same arguments; that continued
+    run is interrupted again at each of its likelihood calls. Before its first own write the file must still hold `payload`."""
+    import shutil
+
+    import minipcn
+    from aspire import Aspire
+
+    def cont(path, fault):
+        P = cc.CkptProblem(case, fault=fault)
+        minipcn.reset()
+        minipcn.step_budget = 400
+        try:
+            with cc.WriteLog() as lg:
+                A = Aspire.resume_from_file(path, log_likelihood=P.log_likelihood, log_prior=P.log_prior)
+                try:
+                    with A.auto_checkpoint(path, every=c):  # the documented way to keep checkpointing, with the same cadence
+                        A.sample_posterior(**P.sample_kwargs(None, None, None))
+                    raised = False
+                except InjectedFault:
+                    raised = True
+        finally:
+            minipcn.reset()
+        return P, lg, raised
+
+    g0 = os.path.join(d, "cont.h5")
+    shutil.copyfile(fk, g0)
+    P0, lg0, _ = cont(g0, None)
+    where0 = f"run interrupted at likelihood call {k} (checkpoint of iteration {it0}) and continued through resume_from_file"
+    got = [w["iteration"] for w in lg0.writes]
+    want = [i for i in range(it0 + 1, n_it + 1) if i % c == 0] + [n_it]
+    if got != want:
+        ctx.fail("continued:cadence", f"{where0}: checkpoints written at iterations {got}; cadence {c} up to iteration {n_it} requires {want}",
+                 case, k=k, got=got, want=want)
+    J = len(P0.calls)
+    labels.append("continued")
+    js = range(J) if (ctx.tier == "thorough" or J <= 8) else sorted(set(int(round(v)) for v in np.linspace(0, J - 1, 8)))
+    for j in js:
+        gj = os.path.join(d, "contj.h5")
+        shutil.copyfile(fk, gj)
+        Pj, lgj, raised = cont(gj, ("likelihood", j))
+        if not raised:
+            continue
+        has_cfg, st_, has_flow, blob = cc.read_file(gj)
+        where = f"{where0}, interrupted again at its likelihood call {j}/{J}"
+        want_blob = lgj.writes[-1]["blob"] if lgj.writes else payload
+        if not has_cfg or not has_flow:
+            ctx.fail("continued:file-contents", f"{where}: file has config={has_cfg} flow={has_flow}", case, k=k, j=j)
+        if blob is None:
+            ctx.fail("continued:checkpoint-missing", f"{where}: the file holds no checkpoint any more ({len(lgj.writes)} written by the continued run; "
+                                                     f"the checkpoint it was resumed from is gone)", case, k=k, j=j)
+        elif blob != want_blob:
+            ctx.fail("continued:checkpoint-bytes", f"{where}: /checkpoint/state is not the most recent payload "
+                                                   f"({'that of the continued run' if lgj.writes else 'the one it was resumed from'})", case, k=k, j=j)
+        if not lgj.writes:
+            keys.append({"case": case, "k": k, "j": j})
+        os.remove(gj)
+    os.remove(g0)
 
 
 def run_case(case, ctx):
@@ -137,6 +200,9 @@ def run_case(case, ctx):
         completed_list = P0.completed_at_call if kind == "likelihood" else P0.completed_at_prior
         T = len(completed_list)
         labels.append(f"crash-points:{'<20' if T < 20 else '20-60' if T <= 60 else '>60'}")
+        # crash points whose file is afterwards continued through resume_from_file (and interrupted again at every call)
+        n_cont = 4 if ctx.tier == "thorough" else 2
+        cont_ks = set(int(round(v)) for v in np.linspace(0, T - 1, n_cont + 2)[1:]) if (kind == "likelihood" and not auto and T > 2) else set()
         for k in range(T):
             fk = os.path.join(d, f"f{k}.h5")
             oldk = prepare(fk)
@@ -183,6 +249,8 @@ def run_case(case, ctx):
                     ctx.fail("resume-route", f"{where}: resume_from_file {'did not pick up' if last is not None else 'invented'} a checkpoint", case, k=k)
             if len(logk.writes) >= 2 or (oldk is not None and logk.writes and len(oldk) != len(logk.writes[-1]["blob"])):
                 keys.append({"case": case, "k": k})
+            if last is not None and logk.writes and has_cfg and has_flow and k in cont_ks:
+                _continued(case, ctx, d, fk, k, last, pickle.loads(last).get("iteration"), n_it, c, labels, keys)
             try:
                 os.remove(fk)
             except OSError:
